@@ -102,6 +102,7 @@ def laneOp (ws : List String) : Option (List Ev) :=
   | ["appendbad"] => some [.appendBad]
   | ["apply"] => some applyRound            -- one whole localReplicator.Replica
   | ["begin"] => some [.applyBegin]
+  | ["getfail"] => some [.applyGetFail]   -- one partition.replica iteration whose GetMessage fails
   | ["take"] => some [.applyTake]
   | ["acquire"] => some [.applyAcquire]
   | ["write"] => some [.applyWrite]
